@@ -12,8 +12,18 @@ static HARD_CAP: AtomicUsize = AtomicUsize::new(usize::MAX);
 /// index of the case being executed (for the status line written on death)
 pub static CUR_IDX: AtomicU64 = AtomicU64::new(u64::MAX);
 
+/// Counting is only switched on inside sandbox workers (single-threaded case execution):
+/// shared atomic counters would otherwise serialise the allocator across 16 runner threads.
+static ENABLED: std::sync::atomic::AtomicBool = std::sync::atomic::AtomicBool::new(false);
+pub fn enable() {
+    ENABLED.store(true, Relaxed);
+}
+
 #[inline]
 fn on_alloc(sz: usize) {
+    if !ENABLED.load(Relaxed) {
+        return;
+    }
     let live = LIVE.fetch_add(sz, Relaxed).wrapping_add(sz);
     if live > HARD_CAP.load(Relaxed) {
         die_alloc(sz, live);
@@ -31,14 +41,17 @@ unsafe impl GlobalAlloc for Tracking {
         System.alloc_zeroed(l)
     }
     unsafe fn dealloc(&self, p: *mut u8, l: Layout) {
-        LIVE.fetch_sub(l.size(), Relaxed);
+        if ENABLED.load(Relaxed) {
+            // saturating: memory allocated before counting was enabled may be freed after
+            let _ = LIVE.fetch_update(Relaxed, Relaxed, |v| Some(v.saturating_sub(l.size())));
+        }
         System.dealloc(p, l)
     }
     unsafe fn realloc(&self, p: *mut u8, l: Layout, new: usize) -> *mut u8 {
         if new >= l.size() {
             on_alloc(new - l.size());
-        } else {
-            LIVE.fetch_sub(l.size() - new, Relaxed);
+        } else if ENABLED.load(Relaxed) {
+            let _ = LIVE.fetch_update(Relaxed, Relaxed, |v| Some(v.saturating_sub(l.size() - new)));
         }
         System.realloc(p, l, new)
     }
